@@ -129,14 +129,19 @@ def matches(op, term, inv, value):
     return bool(res) != bool(inv)
 
 
+KA = [False]       # the key-alias option of the case being judged
+
+
 def leaf_sites(node, seen, va):
     """Leaf descendants (as objects), alias repeats dropped unless asked."""
     out = []
     if is_map(node):
-        if getattr(node, "merge", None):
-            # which of the merged-in leaves an expansion lists is not stated
-            raise Undecided("expansion of a hash with a merge key")
-        items = list(node.items())
+        if getattr(node, "merge", None) and not (KA[0] or va):
+            # merged-in content is a repeat: listed only when an alias option
+            # asks for it, exactly as in the search itself
+            items = list(node.non_merged_items())
+        else:
+            items = list(node.items())
         for _, v in items:
             out += _site_or_leaves(v, seen, va)
     elif is_list(node):
@@ -167,6 +172,7 @@ def expected(doc, expr, mode):
     search_keys = what != "values"
     seen = set()
     out = []
+    KA[0] = ka
 
     def visit_child(key, v):
         name = anchor_of(v)
